@@ -72,7 +72,10 @@ if ok:
     os.makedirs(os.path.join(dst, 'demo'))
     shutil.copy(os.path.join(wt, '_seed', 'patch.diff'), dst)
     for f in os.listdir(demo_src):
-        shutil.copy(os.path.join(demo_src, f), os.path.join(dst, 'demo'))
+        if os.path.isdir(os.path.join(demo_src, f)):
+            shutil.copytree(os.path.join(demo_src, f), os.path.join(dst, 'demo', f))
+        else:
+            shutil.copy(os.path.join(demo_src, f), os.path.join(dst, 'demo'))
     notes = open(os.path.join(wt, '_seed', 'NOTES.md')).read() if os.path.exists(os.path.join(wt, '_seed', 'NOTES.md')) else ''
     open(os.path.join(dst, 'NOTES.md'), 'w').write(notes)
     fail_lines = [l for l in r1.stdout.splitlines() if 'panicked' in l or 'FAILED' in l or 'assert' in l or 'AssertionError' in l or l.startswith('FAIL:')][:8]
